@@ -542,6 +542,45 @@ Section Oracle.
   (* the longest symbol the contract admits *)
   Definition SYM_MAX (p : lzp) : Z := Z.max (extra_after p + 1) (mode_before p).
 
+  Definition steady (p : lzp) (e : encd) : Prop := read_limit (e_lz e) <= write_pos (e_lz e) - keep_after p.
+
+  (* The data-only machine: state = (logical position of the next byte to code, read_ahead,
+     parser state); [T] = logical end of all data (kept preset bytes + every byte that will be
+     written).  One step = the forced first literal, or one consultation of the parser. *)
+  Definition ist : Type := (Z * Z * PS)%type.
+  Definition istep (p : lzp) (T : Z) (st : ist) : option (ist * Z) :=
+    let '(P, ra, ps) := st in
+    if P =? 0 then (if 1 <=? T then Some ((1, -1, ps), 1) else None)
+    else match irun p (parse ps P ra) (T - (P + ra)) ra with
+         | Some (ra1, len, full, ps1) => Some ((P + len, ra1 - len, ps1), len)
+         | None => None
+         end.
+  (* n steps; the symbol lengths newest first *)
+  Fixpoint isteps (p : lzp) (T : Z) (n : nat) (st : ist) (acc : list Z) : option (ist * list Z) :=
+    match n with
+    | O => Some (st, acc)
+    | S k => match istep p T st with
+             | Some (st1, len) => isteps p T k st1 (len :: acc)
+             | None => None
+             end
+    end.
+  Definition est (e : encd) (ps : PS) : ist := (logical_pos e, read_ahead e, ps).
+
+  Lemma isteps_app p T n1 : forall st acc st1 acc1 n2 st2 acc2,
+    isteps p T n1 st acc = Some (st1, acc1) -> isteps p T n2 st1 acc1 = Some (st2, acc2) ->
+    isteps p T (n1 + n2) st acc = Some (st2, acc2).
+  Proof.
+    induction n1 as [|n IH]; intros st acc st1 acc1 n2 st2 acc2 H1 H2.
+    - cbn in H1. injection H1 as -> ->. exact H2.
+    - cbn [isteps Nat.add] in *. destruct (istep p T st) as [[st' len]|]; [|discriminate].
+      eapply IH; eassumption.
+  Qed.
+
+  (* the real encoder sees what the data-only machine sees *)
+  Definition Vc (p : lzp) (e : encd) (T : Z) : Prop :=
+    (finishing (e_lz e) = true /\ g_base e + write_pos (e_lz e) = T) \/
+    (g_base e + write_pos (e_lz e) <= T /\ (quiet e \/ steady p e)).
+
   Lemma encode_symbol_spec p org ps e tr : wf_p p -> einv p org e tr -> cap e -> 1 <= pidx e ->
     okor (encode_symbol PS parse p ps e tr) (fun r =>
       match r with
@@ -554,7 +593,9 @@ Section Oracle.
           unc_size e1 = unc_size e + (pidx e1 - pidx e) /\
           pending_size (e_lz e) <= pending_size (e_lz e1) /\
           (match_len_max p + extra_after p <= write_pos (e_lz e) - pidx e -> pending_size (e_lz e1) = pending_size (e_lz e)) /\
-          sum_abs tr1 = sum_abs tr /\ pidx e1 - pidx e <= SYM_MAX p
+          sum_abs tr1 = sum_abs tr /\ pidx e1 - pidx e <= SYM_MAX p /\
+          rsyms tr1 = (pidx e1 - pidx e) :: rsyms tr /\
+          (forall T, Vc p e T -> istep p T (est e ps) = Some (est e1 ps1, pidx e1 - pidx e))
       end).
   Proof.
     intros W I Hcap Hp1. pose proof W as [W1 W2 W3 W4 W5 W6 W7 W8 W9 W10].
@@ -610,7 +651,21 @@ Section Oracle.
     rewrite Hpi. cbn [e_lz g_base unc_size].
     split; [lia|]. split; [lia|]. split; [exact X1|]. split; [exact X2|]. split; [exact X3|]. split; [exact X6|].
     split; [lia|]. split; [exact X9|]. split; [exact X10|]. split; [cbn [sum_abs]; exact E3|].
-    unfold SYM_MAX. destruct (Z.eq_dec k1 0); [|specialize (Hk4 ltac:(lia))]; lia.
+    split; [unfold SYM_MAX; destruct (Z.eq_dec k1 0); [|specialize (Hk4 ltac:(lia))]; lia|].
+    split; [cbn [rsyms]; rewrite E5; f_equal; lia|].
+    intros T HV. unfold istep, est.
+    assert (Hlp : logical_pos e =? 0 = false).
+    { apply Z.eqb_neq. rewrite logical_pidx. unfold pidx. lia. }
+    rewrite Hlp.
+    rewrite (X12 (T - (logical_pos e + read_ahead e))).
+    - cbn [read_ahead]. unfold logical_pos. cbn [e_lz read_ahead g_base]. rewrite X6.
+      replace (g_base e + read_pos (e_lz e1) - (read_ahead e1 - len)) with (g_base e + read_pos (e_lz e) - read_ahead e + len) by lia.
+      replace (pidx e + len - pidx e) with len by lia. reflexivity.
+    - unfold view_ok. cbv zeta. unfold Vc in HV. unfold logical_pos.
+      destruct HV as [[Hfin HT]|[HT [Hqq|Hs]]].
+      + left. split; [exact Hfin|lia].
+      + exfalso. unfold quiet, pidx in Hqq. lia.
+      + right. unfold steady in Hs. lia.
   Qed.
 
   Lemma encode_init_spec p org e tr : wf_p p -> einv p org e tr -> cap e -> read_pos (e_lz e) = -1 ->
@@ -620,7 +675,9 @@ Section Oracle.
         einv p org e1 tr1 /\ cap e1 /\ pidx e1 = 1 /\ read_pos (e_lz e1) = 0 /\
         write_pos (e_lz e1) = write_pos (e_lz e) /\ read_limit (e_lz e1) = read_limit (e_lz e) /\
         finishing (e_lz e1) = finishing (e_lz e) /\ g_base e1 = g_base e /\ unc_size e1 = 1 /\
-        (req_flush p <= write_pos (e_lz e) -> pending_size (e_lz e1) = 0) /\ ~ quiet e /\ sum_abs tr1 = sum_abs tr
+        (req_flush p <= write_pos (e_lz e) -> pending_size (e_lz e1) = 0) /\ ~ quiet e /\ sum_abs tr1 = sum_abs tr /\
+        rsyms tr1 = 1 :: rsyms tr /\
+        (forall T ps, g_base e + write_pos (e_lz e) <= T -> istep p T (est e ps) = Some (est e1 ps, 1))
       else e1 = e /\ tr1 = tr /\ quiet e).
   Proof.
     intros W I Hcap Hns. pose proof W as [W1 W2 W3 W4 W5 W6 W7 W8 W9 W10].
@@ -671,7 +728,12 @@ Section Oracle.
     split; [exact Hpi|]. cbn [e_lz g_base unc_size].
     split; [lia|]. split; [exact B|]. split; [exact C|]. split; [exact D|]. split; [reflexivity|]. split; [reflexivity|].
     split; [intros Hbg; rewrite Hbig by lia; exact Hp0|].
-    split; [unfold quiet, pidx; lia|]. cbn [sum_abs]. exact E3.
+    split; [unfold quiet, pidx; lia|]. split; [cbn [sum_abs]; exact E3|].
+    split; [cbn [rsyms]; rewrite E5; reflexivity|].
+    intros T ps HT. unfold istep, est, logical_pos. cbn [e_lz read_ahead g_base].
+    replace (g_base e + read_pos (e_lz e) - read_ahead e) with 0 by lia. cbn [Z.eqb].
+    destruct (Z.leb_spec 1 T); [|lia].
+    replace (g_base e + read_pos d1 - (-1 + 1 - 1)) with 1 by lia. reflexivity.
   Qed.
 
   (* the symbol loop: ends with no consultation possible; fuel = bytes left in the window + 1 *)
@@ -687,28 +749,37 @@ Section Oracle.
       pending_size (e_lz e) <= pending_size (e_lz e1) /\
       (finishing (e_lz e) = false -> read_limit (e_lz e) <= write_pos (e_lz e) - keep_after p ->
        pending_size (e_lz e1) = pending_size (e_lz e)) /\
-      (quiet e -> e1 = e /\ ps1 = ps /\ tr1 = tr) /\ sum_abs tr1 = sum_abs tr).
+      (quiet e -> e1 = e /\ ps1 = ps /\ tr1 = tr) /\ sum_abs tr1 = sum_abs tr /\
+      (forall T acc, Vc p e T -> exists n L, isteps p T n (est e ps) acc = Some (est e1 ps1, L ++ acc) /\
+                                             rsyms tr1 = L ++ rsyms tr)).
   Proof.
     intros W. induction fuel as [|f IH]; intros ps e tr I Hcap Hp1 Hfuel.
     - exfalso. pose proof (ei_lz _ _ _ _ I) as [[? ?] ? ? ? ?]. pose proof (ei_ra _ _ _ _ I). unfold pidx in *. lia.
     - cbn [enc_loop1].
       eapply okor_bind; [apply (encode_symbol_spec p org ps e tr W I Hcap Hp1)|].
       intros [[[e1 ps1] tr1]|].
-      + intros (I1 & C1 & Q & X1 & X1' & X2 & X3 & X4 & X5 & X6 & X7 & X8 & XA & XS).
+      + intros (I1 & C1 & Q & X1 & X1' & X2 & X3 & X4 & X5 & X6 & X7 & X8 & XA & XS & XR & XI).
         eapply okor_weaken; [apply IH; try assumption; lia|].
-        intros [[e2 ps2] tr2] (I2 & C2 & Q2 & Y1 & Y1' & Y2 & Y3 & Y4 & Y5 & Y6 & Y7 & Y8 & Y9 & YA).
+        intros [[e2 ps2] tr2] (I2 & C2 & Q2 & Y1 & Y1' & Y2 & Y3 & Y4 & Y5 & Y6 & Y7 & Y8 & Y9 & YA & YI).
         split; [exact I2|]. split; [exact C2|]. split; [exact Q2|]. split; [lia|]. split; [lia|].
         split; [congruence|]. split; [congruence|]. split; [congruence|]. split; [congruence|].
         split; [lia|]. split; [lia|].
-        split; [|split; [intros Q'; contradiction|congruence]].
+        split; [|split; [intros Q'; contradiction|split; [congruence|]]].
+        2:{ intros T acc HV.
+            assert (HV1 : Vc p e1 T).
+            { unfold Vc, steady in *. rewrite X2, X3, X4, X5.
+              destruct HV as [HV|[HT [Hq|Hs]]]; [left; exact HV|contradiction|right; split; [exact HT|right; exact Hs]]. }
+            destruct (YI T ((pidx e1 - pidx e) :: acc) HV1) as (n & L & En & Er).
+            exists (S n), (L ++ [pidx e1 - pidx e]). cbn [isteps]. rewrite (XI T HV).
+            rewrite <- app_assoc. cbn [app]. split; [exact En|]. rewrite Er, XR, <- app_assoc. reflexivity. }
         intros Hnf Hst.
         rewrite Y8 by (rewrite ?X2, ?X3, ?X4; assumption).
         apply X8. pose proof (wf_ka p W). unfold quiet in Q. lia.
       + cbn [okor]. intros Q.
         split; [exact I|]. split; [exact Hcap|]. split; [exact Q|].
         repeat split; try lia.
+        intros T acc _. exists O, []. split; reflexivity.
   Qed.
-
 
   Lemma encode_for_lzma1_spec p org ps e tr : wf_p p -> einv p org e tr -> cap e ->
     okor (encode_for_lzma1 PS parse p ps e tr) (fun r =>
@@ -719,7 +790,9 @@ Section Oracle.
       unc_size e1 = unc_size e + (pidx e1 - pidx e) /\
       (quiet e -> e1 = e /\ ps1 = ps /\ tr1 = tr) /\
       (finishing (e_lz e) = false -> read_limit (e_lz e) <= write_pos (e_lz e) - keep_after p ->
-       pending_size (e_lz e) = 0 -> pending_size (e_lz e1) = 0) /\ sum_abs tr1 = sum_abs tr).
+       pending_size (e_lz e) = 0 -> pending_size (e_lz e1) = 0) /\ sum_abs tr1 = sum_abs tr /\
+      (forall T acc, Vc p e T -> exists n L, isteps p T n (est e ps) acc = Some (est e1 ps1, L ++ acc) /\
+                                             rsyms tr1 = L ++ rsyms tr)).
   Proof.
     intros W I Hcap. pose proof W as [W1 W2 W3 W4 W5 W6 W7 W8 W9 W10].
     pose proof I as [[[Ha Hb] Hc [Hd He] [Hf Hg] Hpb] [Hr1 Hr2] Hmb [Hb1 Hb2] Hh Hdict Hpx Hu HU Hfill Hsym Hchunk Horg].
@@ -727,36 +800,43 @@ Section Oracle.
     destruct (Z.eqb_spec (read_pos (e_lz e)) (-1)) as [Hns|Hst]; cbn [negb].
     - eapply okor_bind; [apply (encode_init_spec p org e tr W I Hcap Hns)|].
       intros [[ok e1] tr1]. destruct ok; cbn [negb].
-      + intros (I1 & C1 & P1 & R1 & X2 & X3 & X4 & X5 & X6 & X7 & NQ & XA).
+      + intros (I1 & C1 & P1 & R1 & X2 & X3 & X4 & X5 & X6 & X7 & NQ & XA & XR & XI).
         assert (Hp0 : pidx e = 0) by (unfold pidx; lia).
         assert (Hunc : unc_size e = 0).
         { assert (g_base e = 0) by (destruct Hh; lia). rewrite logical_pidx in Hchunk. lia. }
         eapply okor_weaken.
         { apply (enc_loop1_spec p org W); try assumption; try lia.
           unfold sym_fuel. pose proof (ei_lz _ _ _ _ I1) as [[? ?] ? ? ? ?]. lia. }
-        intros [[e2 ps2] tr2] (I2 & C2 & Q2 & Y1 & Y1' & Y2 & Y3 & Y4 & Y5 & Y6 & Y7 & Y8 & Y9 & YA).
+        intros [[e2 ps2] tr2] (I2 & C2 & Q2 & Y1 & Y1' & Y2 & Y3 & Y4 & Y5 & Y6 & Y7 & Y8 & Y9 & YA & YI).
         split; [exact I2|]. split; [exact C2|]. split; [exact Q2|]. split; [lia|]. split; [lia|].
         split; [congruence|]. split; [congruence|]. split; [congruence|]. split; [congruence|].
         split; [lia|].
         split; [intros Q; contradiction|].
-        split; [|congruence].
-        intros Hnf Hs Hp. rewrite Y8; [apply X7; unfold quiet, pidx in NQ; lia|congruence|congruence].
+        split; [|split; [congruence|]].
+        { intros Hnf Hs Hp. rewrite Y8; [apply X7; unfold quiet, pidx in NQ; lia|congruence|congruence]. }
+        intros T acc HV.
+        assert (HT : g_base e + write_pos (e_lz e) <= T) by (unfold Vc in HV; destruct HV as [[_ ?]|[? _]]; lia).
+        assert (HV1 : Vc p e1 T).
+        { unfold Vc, steady in *. rewrite X2, X3, X4, X5.
+          destruct HV as [HV|[HT' [Hq|Hs]]]; [left; exact HV|contradiction|right; split; [exact HT'|right; exact Hs]]. }
+        destruct (YI T (1 :: acc) HV1) as (n & L & En & Er).
+        exists (S n), (L ++ [1]). cbn [isteps]. rewrite (XI T ps HT).
+        rewrite <- app_assoc. cbn [app]. split; [exact En|]. rewrite Er, XR, <- app_assoc. reflexivity.
       + intros (E1 & E2 & Q). subst e1 tr1. cbn [okor].
         split; [exact I|]. split; [exact Hcap|]. split; [exact Q|].
         repeat split; try lia; auto.
+        intros T acc _. exists O, []. split; reflexivity.
     - assert (Hp1 : 1 <= pidx e) by (destruct Hpx; [lia|assumption]).
       eapply okor_weaken.
       { apply (enc_loop1_spec p org W); try assumption. unfold sym_fuel, pidx in *. lia. }
-      intros [[e2 ps2] tr2] (I2 & C2 & Q2 & Y1 & Y1' & Y2 & Y3 & Y4 & Y5 & Y6 & Y7 & Y8 & Y9 & YA).
+      intros [[e2 ps2] tr2] (I2 & C2 & Q2 & Y1 & Y1' & Y2 & Y3 & Y4 & Y5 & Y6 & Y7 & Y8 & Y9 & YA & YI).
       split; [exact I2|]. split; [exact C2|]. split; [exact Q2|]. split; [lia|]. split; [lia|].
       split; [exact Y2|]. split; [exact Y3|]. split; [exact Y4|]. split; [exact Y5|]. split; [exact Y6|].
-      split; [exact Y9|]. split; [|exact YA].
+      split; [exact Y9|]. split; [|split; [exact YA|exact YI]].
       intros Hnf Hs Hp. rewrite Y8; assumption.
   Qed.
 
-
   (* ---- the "steady" phase: write calls, no flush in progress ------------------------------- *)
-  Definition steady (p : lzp) (e : encd) : Prop := read_limit (e_lz e) <= write_pos (e_lz e) - keep_after p.
 
   Record phi (p : lzp) (e : encd) : Prop := mkPhi {
     ph_fin : finishing (e_lz e) = false;
@@ -793,7 +873,7 @@ Section Oracle.
       g_base e1 + write_pos (e_lz e1) = g_base e + write_pos (e_lz e) + used /\
       (quiet e -> 0 < n -> 1 <= used) /\
       (used = 0 -> 0 < n -> write_pos (e_lz e1) = buf_size p /\ d1 = e_lz e) /\
-      sum_abs tr1 = sum_abs tr /\ sum_fill tr1 = sum_fill tr + used).
+      sum_abs tr1 = sum_abs tr /\ sum_fill tr1 = sum_fill tr + used /\ rsyms tr1 = rsyms tr).
   Proof.
     intros W I F Hn. pose proof W as [W1 W2 W3 W4 W5 W6 W7 W8 W9 W10].
     pose proof I as [[[Ha Hb] Hc [Hd He] [Hf Hg] Hpb] [Hr1 Hr2] Hmb [Hb1 Hb2] Hh Hdict Hpx Hu HU Hfill Hsym Hchunk Horg].
@@ -844,7 +924,7 @@ Section Oracle.
       (* no move: there must be room, otherwise the window is full and a drained encoder forces a move *)
       subst off. destruct (Z.eq_dec (write_pos (e_lz e)) (buf_size p)) as [Hfullw|Hnf]; [|lia].
       pose proof (HG Hfullw). lia. }
-    split; [|split; [exact E3|exact E2]].
+    split; [|split; [exact E3|split; [exact E2|exact E5]]].
     intros Hu0 Hn0. subst used.
     assert (Hroom : buf_size p - (write_pos (e_lz e) - off) = 0) by lia.
     assert (off = 0) by (destruct O3 as [[? ?]|(? & ? & ?)]; lia). subst off.
@@ -878,20 +958,23 @@ Section Oracle.
     okor (l1_write_loop PS parse fuel p ps e len off tr) (fun r =>
       let '(e1, ps1, off1, tr1) := r in
       l1inv p org e1 tr1 /\ off1 = off + len /\ sum_fill tr1 = sum_fill tr + len /\
-      unc_size e1 + (write_pos (e_lz e1) - pidx e1) = unc_size e + (write_pos (e_lz e) - pidx e) + len).
+      unc_size e1 + (write_pos (e_lz e1) - pidx e1) = unc_size e + (write_pos (e_lz e) - pidx e) + len /\
+      (forall T acc, g_base e + write_pos (e_lz e) + len <= T ->
+         exists n L, isteps p T n (est e ps) acc = Some (est e1 ps1, L ++ acc) /\ rsyms tr1 = L ++ rsyms tr)).
   Proof.
     intros W. induction fuel as [|f IH]; intros ps e len off tr (I & F & Q & A0) Hlen Hcap Hfuel; [lia|].
     cbn [l1_write_loop].
     destruct (Z.leb_spec len 0) as [Hz|Hpos].
     { cbn [okor]. assert (len = 0) by lia. subst len.
-      split; [split; [exact I|split; [exact F|split; [exact Q|exact A0]]]|]. split; [lia|]. split; lia. }
+      split; [split; [exact I|split; [exact F|split; [exact Q|exact A0]]]|]. split; [lia|]. split; [lia|]. split; [lia|].
+      intros T acc _. exists O, []. split; reflexivity. }
     eapply okor_bind; [apply (fill_step p org e tr len W I F Hlen)|].
     intros [[d1 used] tr1]. fold (after_fill e d1).
-    intros (I1 & F1 & U1 & L1 & Un1 & Rc1 & Wn1 & Bw1 & Hprog & _ & Ab1 & Fl1).
+    intros (I1 & F1 & U1 & L1 & Un1 & Rc1 & Wn1 & Bw1 & Hprog & _ & Ab1 & Fl1 & Rs1).
     assert (Hu : 1 <= used) by (apply Hprog; [exact Q|lia]).
     assert (Hcap1 : cap (after_fill e d1)) by (unfold cap; rewrite Un1; lia).
     eapply okor_bind; [apply (encode_for_lzma1_spec p org ps _ tr1 W I1 Hcap1)|].
-    intros [[e2 ps2] tr2] (I2 & C2 & Q2 & Y1 & Y1' & Y2 & Y3 & Y4 & Y5 & Y6 & Y9 & Y8 & YA).
+    intros [[e2 ps2] tr2] (I2 & C2 & Q2 & Y1 & Y1' & Y2 & Y3 & Y4 & Y5 & Y6 & Y9 & Y8 & YA & YI).
     assert (F2 : phi p e2).
     { destruct F1 as [G1 G2 G3 G4]. constructor.
       - congruence.
@@ -908,9 +991,19 @@ Section Oracle.
       - lia.
       - rewrite Y6, Y2. lia.
       - lia. }
-    intros [[[e3 ps3] off3] tr3] (L3 & O3 & S3 & C3).
+    intros [[[e3 ps3] off3] tr3] (L3 & O3 & S3 & C3 & ZI).
     pose proof (ei_fill _ _ _ _ I2) as Hf2. pose proof (ei_fill _ _ _ _ I1) as Hf1.
-    split; [exact L3|]. split; [lia|]. split; [lia|]. rewrite C3, Y6, Y2. lia.
+    split; [exact L3|]. split; [lia|]. split; [lia|]. split; [rewrite C3, Y6, Y2; lia|].
+    intros T acc HT.
+    assert (HV1 : Vc p (after_fill e d1) T).
+    { unfold Vc. right. split; [lia|]. destruct (ph_sq _ _ F1) as [Hs|Hq]; [right; exact Hs|left; exact Hq]. }
+    destruct (YI T acc HV1) as (n1 & L1' & En1 & Er1).
+    assert (Hest : est (after_fill e d1) ps = est e ps) by (unfold est; rewrite L1; reflexivity).
+    rewrite Hest in En1.
+    destruct (ZI T (L1' ++ acc)) as (n2 & L2' & En2 & Er2); [rewrite Y5, Y2; lia|].
+    exists (n1 + n2)%nat, (L2' ++ L1'). split.
+    - rewrite <- app_assoc. eapply isteps_app; eassumption.
+    - rewrite Er2, Er1, Rs1, <- app_assoc. reflexivity.
   Qed.
 
   (* the state of an LZMAWriter between calls, tied to what has been written *)
@@ -1251,7 +1344,7 @@ Section Oracle.
     - assert (Hcap : cap e) by (apply (cap_of_bound p org e tr W I Hub)).
       eapply okor_bind; [apply (encode_init_spec p org e tr W I Hcap Hns)|].
       intros [[ok e1] tr1]. destruct ok; cbn [negb].
-      + intros (I1 & C1 & P1 & R1 & X2 & X3 & X4 & X5 & X6 & X7 & NQ & XA).
+      + intros (I1 & C1 & P1 & R1 & X2 & X3 & X4 & X5 & X6 & X7 & NQ & XA & XR & XI).
         assert (Hp0 : pidx e = 0) by (unfold pidx; lia).
         assert (Hunc : unc_size e = 0).
         { assert (g_base e = 0) by (destruct Hh; lia). rewrite logical_pidx in Hchunk. lia. }
